@@ -20,6 +20,7 @@ import (
 	"path/filepath"
 	"regexp"
 	"regexp/syntax"
+	"runtime"
 	"sort"
 	"strings"
 	"sync"
@@ -885,6 +886,28 @@ func TestVerifC07(t *testing.T) {
 		c.fx = "0" // development aid: compare with the model of the originally pinned behaviour
 	}
 
+	{
+		ig := &gen{rng: rand.New(rand.NewSource(r.Seed + 77))}
+		var cs []string
+		for i := 0; i < r.N(200, 2000); i++ {
+			tags := map[string]bool{}
+			var sb strings.Builder
+			for k := 0; k < 1+ig.rng.Intn(3); k++ {
+				sb.WriteString(joinPieces(ig.line(tags)))
+				sb.WriteString("\n")
+			}
+			cs = append(cs, sb.String())
+		}
+		r.Independent("scrubber", "a LogScrubber of its own", cs, func(text string) string {
+			var out bytes.Buffer
+			ls := &LogScrubber{Output: &out}
+			half := len(text) / 2
+			ls.Write([]byte(text[:half]))
+			runtime.Gosched()
+			ls.Write([]byte(text[half:]))
+			return vh.Hex(out.Bytes()) + " | Scrub: " + vh.Hex(Scrub([]byte(text)))
+		})
+	}
 	var ok1, ok2 bool
 	c.fullW, ok1 = wireOf(fullAddrPattern)
 	c.addrW, ok2 = wireOf(addressPattern)
